@@ -24,7 +24,7 @@ func init() {
 			"the with-expressions of the sandboxed include itself are written in the outer template and evaluated with outer permissions",
 			"macro calls count as function calls for the policy check (observed behaviour), so macro names used inside the sandbox are allowed functions",
 		},
-		quick: 28*10*2*4*2 + 24000, thorough: 28*10*2*4*2 + 400000, minQuick: 3000, minThorough: 60000,
+		quick: 28*13*2*4*2 + 24000, thorough: 28*13*2*4*2 + 400000, minQuick: 3000, minThorough: 60000,
 	}})
 }
 
@@ -79,7 +79,7 @@ var c06Positions = []string{
 	"SPYONLY:{% macro X_FN() %}mac{% endmacro %}{{ xs.X_FN() }}{% for i in xs %}{{ i.X_FN() }}{% endfor %}",
 }
 
-const c06Routes = 10
+const c06Routes = 13
 
 func c06Expand(pos string, kind string, name string) (string, bool) {
 	app := "v|" + name
@@ -150,6 +150,19 @@ func c06Build(route int, frag string) map[string]string {
 		t["mlib"] = "{% macro mac() %}M:" + frag + "{% endmacro %}"
 	case 8:
 		t["sb"] = "S:{% from 'mlib' import mac %}{{ mac() }}"
+		t["mlib"] = "{% macro mac() %}M:" + frag + "{% endmacro %}"
+	case 10:
+		// a macro of the includer, called from the sandboxed template (which sees it without `only`)
+		t["main"] = "{% macro imac() %}IM:" + frag + "{% endmacro %}OUT[{% include 'sb' sandboxed %}]"
+		t["sb"] = "S:{{ imac() }}"
+	case 11:
+		t["main"] = "{% macro imac() %}IM:" + frag + "{% endmacro %}OUT[{% include 'sb' sandboxed %}]"
+		t["sb"] = "{% extends 'lay' %}{% block b %}O:{{ imac() }}{% endblock %}"
+		t["lay"] = "L:{% block b %}dflt{% endblock %}"
+	case 12:
+		t["main"] = "{% from 'mlib' import mac %}OUT[{% include 'sb' sandboxed %}]"
+		t["sb"] = "{% extends 'lay' %}{% block b %}ovr{% endblock %}"
+		t["lay"] = "L:{{ mac() }}{% block b %}dflt{% endblock %}"
 		t["mlib"] = "{% macro mac() %}M:" + frag + "{% endmacro %}"
 	default:
 		t["sb"] = "S:{% include 'in1' %}"
@@ -278,7 +291,7 @@ func (p *c06) Run(rec *core.Recorder, seed uint64, idx int, tier string) {
 		}
 	}
 	allowedF := map[string]bool{"okf": true, "default": true, "length": true, "f1": true, "f2": true, "upper": true, "merge": true, "e": true}
-	allowedG := map[string]bool{"okg": true, "g1": true, "g2": true, "range": true, "max": true, "cycle": true, "pm": true, "mac": true, "parent": true, "go": true, "hop": true}
+	allowedG := map[string]bool{"okg": true, "g1": true, "g2": true, "range": true, "max": true, "cycle": true, "pm": true, "mac": true, "parent": true, "go": true, "hop": true, "imac": true}
 	mkPolicy := func(forbid bool) twig.SecurityPolicy {
 		f, g := map[string]bool{}, map[string]bool{}
 		for k, v := range allowedF {
@@ -322,7 +335,9 @@ func (p *c06) Run(rec *core.Recorder, seed uint64, idx int, tier string) {
 		}
 	}
 	var sv *twig.SecurityViolation
-	if spyOnly {
+	if spyOnly || (route >= 10 && route <= 12) {
+		// (routes 10-12: whether the sandboxed template can resolve a macro of its includer at all is the engine's business;
+		// what is demanded is that the forbidden callable does not run)
 		rec.Count("spy-only-cases", 1)
 		return
 	}
